@@ -130,6 +130,20 @@ def extract(repo):
         search_creator = "false"
     else:
         raise ValueError("populateAttrList: the test that finds the inherited attribute is not recognised")
+    # is a redeclaration that names an intermediate supertype (which itself redeclares the attribute) followed to its end?
+    if "Entitysup=redeclarationTarget(redeclaredIn(ent,attr),attr);" in pb:
+        rt = re.sub(r"\s+", "", _body(oa, r"static\s+Entity\s+redeclarationTarget\s*\([^)]*\)\s*\{"))
+        if "next=redeclaredIn(sup,a);" not in rt or "sup=next;" not in rt:
+            raise ValueError("redeclarationTarget: the chain of redeclarations is not followed as expected")
+        follows = "true"
+    elif "Entitysup=redeclaredIn(ent,attr);" in pb:
+        follows = "false"
+    else:
+        raise ValueError("populateAttrList: how the supertype named in SELF\\sup.attr is resolved is not recognised")
+    ce_ns = re.sub(r"\s+", "", ce)
+    decl_follows = "returnATTRdeclarer(x,nm);" in ce_ns
+    if decl_follows != (follows == "true"):
+        raise ValueError("ATTRdeclarer (MakeRedefined) and populateAttrList (MakeDerived) resolve a redeclaration chain differently")
     if "unique=false;if(attr->initializer){list[i]->deriver=ent;}break;" in pb:
         explicit_marks = "false"
     elif "unique=false;list[i]->deriver=ent;break;" in pb:
@@ -244,6 +258,10 @@ def redeclSearchUsesCreator : Bool := {search_creator}
 /-- ordered_attrs.cc `dedupList`: the entry that stays takes over the "derived by" mark of a repeated (name, creator) entry that is
     removed (true, fix C02-11), or the mark is dropped with the entry (false) -/
 def dedupMergesDeriver : Bool := {dedup_merges}
+
+/-- ordered_attrs.cc `redeclarationTarget` / classes_entity.c `ATTRdeclarer`: `SELF\\sup.x` where `sup` itself only redeclares `x`
+    (`SELF\\sup2.x`) is resolved to the end of that chain before the attribute is looked for (true, fix C02-14) -/
+def redeclFollowsChain : Bool := {follows}
 
 /-- exp2cxx prints `MakeRedefined( a, nm, declarer )` (true) or `MakeRedefined( a, nm )` (false: first attribute named nm) -/
 def redefinedSearchUsesDeclarer : Bool := {redef_decl}
